@@ -2,6 +2,22 @@
 
 # n = cases per process; shards = processes (distinct derived seeds) per tier.
 CHECKS = {
+    "C01": {
+        "level": "exploration",
+        "technique": "generated-schedule property testing: call-out scheduler inside a synctest bubble, in-flight build monitor; small-scope exhaustive schedule enumeration; free-running stress twin",
+        "design_ref": "DESIGN.md section 6 C01",
+        "text": "Interleavings of concurrent Gets are a generated, shrinkable value: every call-out of the frontend (backend "
+                "Read/Write, builder, Failover log and stats call-outs) parks the calling goroutine and a controller driven by "
+                "rapid decides who runs next, when each Get starts, when the fake clock jumps and when the backend is expired "
+                "or a key deleted externally. The builder keeps a per-key in-flight counter. Sampled search over schedules and "
+                "configurations; exhaustive only in the small scope of the sweep.",
+        "note": "Critical sections of Failover.lock and of the real backends are atomic for the scheduler; interleavings inside "
+                "them are sampled only by the free-running stress twin. Trusts testing/synctest quiescence detection.",
+        "assumptions": ["interleaving granularity = frontend call-outs", "goroutines the library spawns are identified by goroutine id + task id in the context"],
+        "jobs": [
+            {"run": "^TestC01SingleBuild$", "n": {"quick": 12000, "thorough": 60000}},
+        ],
+    },
     "C07": {
         "level": "exploration",
         "technique": "model-based stateful property testing (rapid) against a reference map on a fake clock",
